@@ -553,6 +553,96 @@ def check_status(ck, prog):
         raise AnalysisBroken("C17-STATUS: only %d failure returns found" % n)
 
 
+IO_BOOL = ("io_write_buf", "io_write", "io_seek_src", "io_pread", "io_sync_dest", "io_open_dest", "io_open_dest_real",
+           "io_open_src_real", "io_close_dest")
+
+
+def check_perfile(ck, prog):
+    """(a) No failure reported by an xz I/O function is dropped.  (b) Per-file decisions kept in file-scope variables of
+    coder.c are re-made for every file: a variable that coder_init() assigns on some paths is assigned on every path
+    that starts coding."""
+    from sa import own
+    ck.rule("C17-RESULT", "the bool result (true = failure) of every xz I/O helper is tested, returned or stored")
+    n = 0
+    for f in sorted(prog.all_functions("xz"), key=lambda f: (f.file, f.line)):
+        if not f.blocks:
+            continue
+        sites = [c for b, i, e in f.iter_elems() for c in ex.calls(e, into_refs=True) if c.get("fn") in IO_BOOL]
+        if not sites:
+            continue
+        ck.saw_function(f)
+        bad = own.unused_results(prog, f, lambda c: c.get("fn") in IO_BOOL)
+        # an explicit (void) cast also discards the result
+        for b, i, e in f.iter_elems():
+            e_ = ex.deref(e)
+            if e_.get("k") == "cast" and (e_.get("ty") or "") == "void":
+                inner = ex.strip(e_["e"])
+                if inner is not None and inner.get("k") == "call" and inner.get("fn") in IO_BOOL:
+                    bad.append((ex.line(inner), inner["fn"], inner))
+        n += len(sites)
+        ck.ob("C17-RESULT", f.name, not bad, common.where(f, bad[0][2]) if bad else common.where(f),
+              "%s: %d call(s) of I/O helpers, every result is consumed" % (f.name, len(sites)) if not bad else
+              "%s(): the result of %s() at line %s is discarded: a failed write/seek/sync is not folded into the success "
+              "flag, so the source file can be removed although the output is incomplete" % (
+                  f.name, bad[0][1], bad[0][0]), key="RESULT:%s:%s" % (f.name, bad[0][1] if bad else ""))
+    if n < 10:
+        raise AnalysisBroken("C17-RESULT: only %d I/O helper call sites" % n)
+    ck.rule("C17-PERFILE", "file-scope state that coder_init() sets conditionally is also reset unconditionally per file")
+    f = prog.fn("coder_init", "coder.c", target="xz")
+    ck.saw_function(f)
+    writes = {}
+    for b, i, e in f.iter_elems():
+        for (l, r, op, node) in ex.writes(e):
+            ls = ex.strip(l)
+            if ls is not None and ls.get("k") == "var" and ls.get("s") in ("g", "f"):
+                writes.setdefault(ls["n"], []).append((b.id, i, node))
+    rets = [b.id for b in f.blocks.values() for e in b.elems if e is not None and ex.deref(e).get("k") == "ret"
+            and "ERROR" not in ex.show(ex.deref(e).get("e"))]
+    if not writes or not rets:
+        raise AnalysisBroken("coder_init: no file-scope state / no successful return found")
+    for g_, sites in sorted(writes.items()):
+        def via(bb, ii, ee, g_=g_):
+            return any(ex.strip(l) is not None and ex.strip(l).get("k") == "var" and ex.strip(l)["n"] == g_
+                       for (l, r, op, node) in ex.writes(ee))
+        ok, path = cfg.must_pass(f, [f.entry], rets, via)
+        ck.ob("C17-PERFILE", "coder_init:" + g_, ok, common.where(f, sites[0][2]),
+              "coder_init: %s is assigned on every path that starts coding a file" % g_ if ok else
+              "coder_init(): the file-scope variable %s is assigned only on some paths (lines %s); on the path %s it keeps "
+              "the value chosen for the previous file of the same xz invocation" % (
+                  g_, sorted(ex.line(s_[2]) for s_ in sites), cfg.path_lines(f, path)[:6]),
+              key="PERFILE:coder_init:" + g_)
+
+
+def check_exit_sticky(ck, prog):
+    """An error exit status is never replaced by the (numerically larger) warning status; xz -Q turns a final
+    E_WARNING into 0, so a lost E_ERROR means `xz ... && rm originals` deletes data after a failed operation."""
+    ck.rule("C17-EXIT", "set_exit_status(): E_ERROR is sticky")
+    s_ = prog.fn("set_exit_status", "main.c", target="xz")
+    ck.saw_function(s_)
+    en = prog.enum_with("E_ERROR", s_.file)
+    stores = [(b, node) for b, i, e in s_.iter_elems() for (l, r, op, node) in ex.writes(e) if ex.show(l) == "exit_status"]
+    doms = cfg.dominators(s_)
+    ok = bool(stores)
+    for b, node in stores:
+        guarded = False
+        for d in doms.get(b.id, ()):
+            blk = s_.blocks[d]
+            if not (blk.term and "cond" in blk.term and len(blk.succs) == 2):
+                continue
+            c = ex.strip(blk.term["cond"])
+            if c.get("k") == "bin" and c["op"] in ("!=", "==") and ex.show(c["l"]) == "exit_status" and \
+                    ex.const_val(c["r"]) == en["E_ERROR"]:
+                want = blk.succs[0] if c["op"] == "!=" else blk.succs[1]
+                if want is not None and (want == b.id or want in doms.get(b.id, ())):
+                    guarded = True
+        ok = ok and guarded
+    ck.ob("C17-EXIT", "sticky-error", ok, common.where(s_),
+          "set_exit_status(): every store to exit_status is guarded by exit_status != E_ERROR" if ok else
+          "set_exit_status(): exit_status can be overwritten when it already is E_ERROR (E_ERROR = %d < E_WARNING = %d): a "
+          "later warning hides an earlier error and -Q then makes xz exit 0" % (en["E_ERROR"], en.get("E_WARNING", -1)),
+          key="EXIT:sticky-error")
+
+
 def run(ck):
     ck.explanation = (
         "Finite-domain path-sensitive analysis of `success` through io_close (with each I/O primitive forced to "
@@ -567,3 +657,5 @@ def run(ck):
     check_who(ck, prog)
     check_sig(ck, prog)
     check_status(ck, prog)
+    check_perfile(ck, prog)
+    check_exit_sticky(ck, prog)
